@@ -66,17 +66,16 @@ func init() {
 					// the scan loop: for i, t := range removed { iters[i] = t.ScanPrefix(nil, &scanErr) }
 					var iters types.Object
 					scanned := false
-					inspect(block, func(m ast.Node) bool {
-						rs, ok := m.(*ast.RangeStmt)
-						if !ok || derefObj(info, rs.X) != removed {
-							return true
-						}
-						inspect(rs.Body, func(k ast.Node) bool {
+					for _, lp := range fullLoopsOver(info, block, func(e ast.Expr) bool { return derefObj(info, e) == removed }) {
+						inspect(lp.Body, func(k ast.Node) bool {
 							if as, ok := k.(*ast.AssignStmt); ok && len(as.Lhs) == 1 && len(as.Rhs) == 1 {
 								if c, ok := ast.Unparen(as.Rhs[0]).(*ast.CallExpr); ok && r.P.CalleeFunc(info, c) == scanFn {
 									if ix, ok := ast.Unparen(as.Lhs[0]).(*ast.IndexExpr); ok {
 										iters = prog.IdentObj(info, ix.X)
 										scanned = true
+										if sel, isSel := ast.Unparen(c.Fun).(*ast.SelectorExpr); !isSel || !lp.IsElem(sel.X) {
+											r.Fail(f.Name()+":scans-other", c.Pos(), nil, "the scan loop over the removed tables scans something other than the table of the current iteration")
+										}
 										// full scan: prefix nil
 										if len(c.Args) < 1 {
 											return true
@@ -92,8 +91,7 @@ func init() {
 							}
 							return true
 						})
-						return true
-					})
+					}
 					if !scanned {
 						r.Fail(f.Name()+":removed-not-merged:"+removed.Name(), call.Pos(), nil, "the tables removed by the change set (%s) are not the tables scanned into the merge: tables would be dropped without their data being rewritten, or merged tables kept (duplicates resurrecting old values)", removed.Name())
 						return true
@@ -263,7 +261,12 @@ func init() {
 					}
 					return true
 				})
+				// named results: a bare return hands back the change set iff one was assigned on a path to it
+				bareCS := r.bareReturnsWithResult(f, 0)
 				isCSReturn := func(c *pathsim.Ctx, ev *pathsim.Event) bool {
+					if ev.Kind == pathsim.EvReturn && len(ev.Results) == 0 && c.Depth == 0 {
+						return bareCS[ev.Pos]
+					}
 					if ev.Kind != pathsim.EvReturn || len(ev.Results) != 2 {
 						return false
 					}
@@ -356,8 +359,58 @@ func init() {
 			// oldest first
 			src := resolveLocal(info, outer.Body, inner.X)
 			okOrder := false
-			if call, ok := isCallToNamed(info, src, "slices", "SortedFunc"); ok && len(call.Args) == 2 && prog.IdentObj(info, call.Args[1]) == types.Object(oldToNew) {
-				okOrder = true
+			for _, nm := range []string{"SortedFunc", "SortedStableFunc"} {
+				if call, ok := isCallToNamed(info, src, "slices", nm); ok && len(call.Args) == 2 && prog.IdentObj(info, call.Args[1]) == types.Object(oldToNew) {
+					okOrder = true // sorts a copy collected from the iterator
+				}
+			}
+			// or: a copy of the level's tables, sorted in place before the loop
+			if v := prog.IdentObj(info, inner.X); !okOrder && v != nil {
+				sortedInPlace := false
+				for _, st := range outer.Body.List {
+					if st.Pos() >= inner.Pos() {
+						break
+					}
+					es, isExpr := st.(*ast.ExprStmt)
+					if !isExpr {
+						continue
+					}
+					for _, nm := range []string{"SortFunc", "SortStableFunc"} {
+						if call, ok := isCallToNamed(info, es.X, "slices", nm); ok && len(call.Args) == 2 && prog.IdentObj(info, call.Args[0]) == v && prog.IdentObj(info, call.Args[1]) == types.Object(oldToNew) {
+							sortedInPlace = true
+						}
+					}
+				}
+				if sortedInPlace {
+					fresh := false
+					def := ast.Unparen(deref(info, inner.X))
+					for _, nm := range []string{"Collect", "Clone", "AppendSeq", "Sorted"} {
+						if _, ok := isCallToNamed(info, def, "slices", nm); ok {
+							fresh = true
+						}
+					}
+					if call, ok := def.(*ast.CallExpr); ok {
+						if id, isID := call.Fun.(*ast.Ident); isID && id.Name == "append" && len(call.Args) >= 1 {
+							// append([]*Table(nil), xs...) / append([]*Table{}, xs...)
+							switch a := ast.Unparen(call.Args[0]).(type) {
+							case *ast.CompositeLit:
+								fresh = len(a.Elts) == 0
+							case *ast.CallExpr:
+								if tv, has := info.Types[a.Fun]; has && tv.IsType() && len(a.Args) == 1 {
+									if av, has := info.Types[a.Args[0]]; has && av.IsNil() {
+										fresh = true
+									}
+								}
+							}
+						}
+					}
+					if fresh {
+						okOrder = true
+					} else {
+						okOrder = true // the order is right; the aliasing is reported on its own
+						r.Fail(f.Name()+":sorts-level-in-place", inner.Pos(), nil, "the tables of a level are sorted by age in place on %s, which is not a copy made here: if it is the level's own slice, the level is left in age order instead of key order and lookups binary-search it wrongly", types.ExprString(def))
+					}
+				}
 			}
 			if !okOrder {
 				r.Fail(f.Name()+":oldest-first", inner.Pos(), nil, "within a level the tables are not selected oldest first (slices.SortedFunc(level.AllTables(), OrderOldToNew))")
